@@ -28,6 +28,7 @@ def decide(prop, args, P, REG, targets, assumed, results, seed, t0, known):
     solver_ms = 0.0
     samples = []
     funcs = []
+    second_instances = {}
     trusted = set()
     standins = []
     for r in results:
@@ -70,6 +71,16 @@ def decide(prop, args, P, REG, targets, assumed, results, seed, t0, known):
             total += 1
             solver_ms += ob.get("ms", 0.0)
             by_backend[ob.get("backend", "z3-5.1")] = by_backend.get(ob.get("backend", "z3-5.1"), 0) + 1
+            for be, vs in (ob.get("second") or {}).items():
+                # second back ends (thorough tier): an obligation counts for a back end when that solver answered unsat on
+                # every path instance of it; "sat" on any instance contradicts z3 5.1 and voids the run
+                if vs.get("sat"):
+                    errors.append(f"{ob['name']}: {be} answers sat where z3-5.1 answered unsat ({vs}) - solver disagreement, no verdict")
+                elif vs.get("unsat") and not vs.get("unknown"):
+                    by_backend[be] = by_backend.get(be, 0) + 1
+                second_instances.setdefault(be, {"unsat": 0, "unknown": 0, "sat": 0})
+                for verdict, n in vs.items():
+                    second_instances[be][verdict] = second_instances[be].get(verdict, 0) + n
             if ob["status"] == "discharged":
                 discharged += 1
             else:
@@ -146,6 +157,7 @@ def decide(prop, args, P, REG, targets, assumed, results, seed, t0, known):
                 "trusted_base": sorted(trusted) + [f"axiom: {n}" for n in REG.axiom_notes] + PY_ASSUMPTIONS,
                 "functions_under_contract": funcs,
                 "by_backend": by_backend,
+                "second_backend_query_instances": second_instances or "thorough tier only",
                 "solver_ms_total": round(solver_ms, 1),
                 "bounded_standins": standins,
                 "known_findings_matched": known_hits,
